@@ -55,7 +55,16 @@ def configs(tier):
     for dt in ("uint8", "uint16"):
         for diff in DIFFS:
             for channels in (1, 3):
-                out.append(dict(kind="integer", shape=[2, 2], channels=channels, dtype=dt, diff=diff, order=(diff != "plain")))
+                for nb in ((0, 1) if tier == "quick" else (0, 1, 3)):
+                    out.append(dict(kind="integer", shape=[2, 2], channels=channels, dtype=dt, diff=diff, order=(diff != "plain"), extra=nb))
+    # concrete stage classes named by the property: MonochromaticReduction, ScalingModel / LinearModel
+    for color in ("red", "green", "blue", "red+green", "negative-key") if tier != "quick" else ("green", "red+green", "negative-key"):
+        for bal in ("scaling", "linear", None):
+            for order in (True, False):
+                if tier == "quick" and not order and bal != "linear":
+                    continue
+                for scal in ("one", "generic"):
+                    out.append(dict(kind="concrete", shape=[2, 2], channels=3, color=color, balancing=bal, order=order, diff="absolute" if order else "plain", extra=1 if bal else 0, scalings=scal))
     return out
 
 
@@ -201,6 +210,8 @@ def body(cfg):
     org = [S.real("o0", lo=-10, hi=10), S.real("o1", lo=-10, hi=10)]
     if cfg["kind"] == "integer":
         return body_integer(cfg, darsia, shape, ch, full, dims, org)
+    if cfg["kind"] == "concrete":
+        return body_concrete(cfg, darsia, shape, ch, full, dims, org)
     base = S.array("b", full, lo=-10, hi=10)
     probe = S.array("p", full, lo=-10, hi=10)
     extra = [S.array(f"e{k}", full, lo=-10, hi=10) for k in range(cfg["extra"])]
@@ -287,17 +298,91 @@ def body_integer(cfg, darsia, shape, ch, full, dims, org):
     rng = np.random.default_rng(7 + hi + ch + len(cfg["diff"]))
     base = rng.integers(0, hi + 1, size=full).astype(dt)
     probe = rng.integers(0, hi + 1, size=full).astype(dt)
+    extra = [rng.integers(0, hi + 1, size=full).astype(dt) for _ in range(cfg.get("extra", 0))]
     B = _mk(darsia, base.copy(), ch, dims, org)
     P = _mk(darsia, probe.copy(), ch, dims, org)
+    Es = [_mk(darsia, e.copy(), ch, dims, org) for e in extra]
     stage_fns, fns, calls = _stages(cfg, shape)
     present = dict(reduction=(ch == 3), balancing=True, restoration=True, model=True)
-    an = darsia.ConcentrationAnalysis(B, stage_fns["reduction"] if ch == 3 else None, stage_fns["balancing"], stage_fns["restoration"], stage_fns["model"], **{"diff option": cfg["diff"], "restoration -> model": cfg["order"]})
+    an = darsia.ConcentrationAnalysis([B] + Es if Es else B, stage_fns["reduction"] if ch == 3 else None, stage_fns["balancing"], stage_fns["restoration"], stage_fns["model"], **{"diff option": cfg["diff"], "restoration -> model": cfg["order"]})
     out = an(P)
     fb = skimage.img_as_float(base)
     fp = skimage.img_as_float(probe)
     if S.instrumented():
         fb, fp = fb.astype(object), fp.astype(object)
-    exp = _expected(cfg, fns, present, _diff(cfg["diff"], fp, fb), None, cfg["order"])
+    F = None
+    if extra:
+        red_shape = shape if ch == 3 else full
+        F = np.zeros(red_shape, dtype=object if S.instrumented() else float)
+        for e in extra:
+            fe = skimage.img_as_float(e)
+            if S.instrumented():
+                fe = fe.astype(object)
+            de = _expected(cfg, fns, dict(present, balancing=False, restoration=False, model=False), _diff(cfg["diff"], fe, fb), None, True)
+            for i in np.ndindex(*red_shape):
+                F[i] = S.max_(F[i], de[i])
+    exp = _expected(cfg, fns, present, _diff(cfg["diff"], fp, fb), F, cfg["order"])
     S.claim("integer_inputs_are_promoted_before_subtraction", S.eq(out.img, exp) if tuple(out.img.shape) == tuple(exp.shape) else False)
     S.claim("integer_probe_unmodified", bool(np.array_equal(P.img, probe)) and P.img.dtype == dt)
+    S.observe("out", out.img)
+
+
+def body_concrete(cfg, darsia, shape, ch, full, dims, org):
+    """the stage classes the property names, with symbolic parameters: MonochromaticReduction(color),
+    ScalingModel / LinearModel as balancing, LinearModel as model; restoration stays uninterpreted"""
+    base = S.array("b", full, lo=0, hi=1)
+    probe = S.array("p", full, lo=0, hi=1)
+    extra = [S.array(f"e{k}", full, lo=0, hi=1) for k in range(cfg["extra"])]
+    B = _mk(darsia, base.copy(), ch, dims, org)
+    P = _mk(darsia, probe.copy(), ch, dims, org)
+    Es = [_mk(darsia, e.copy(), ch, dims, org) for e in extra]
+    stage_fns, fns, calls = _stages(cfg, shape)
+    # scalings are concrete per configuration (1 exactly -- the value ScalingModel short-cuts -- or a
+    # generic one) so that the composition stays linear for the solver; offsets and pixels are symbolic
+    s, sb = (1.0, 1.0) if cfg["scalings"] == "one" else (-1.5, 2.5)
+    o, ob = S.real("o", lo=-2, hi=2), S.real("ob", lo=-2, hi=2)
+    red = darsia.MonochromaticReduction(color=cfg["color"])
+    bal = {"scaling": lambda: darsia.ScalingModel(scaling=sb), "linear": lambda: darsia.LinearModel(scaling=sb, offset=ob), None: lambda: None}[cfg["balancing"]]()
+    mod = darsia.LinearModel(scaling=s, offset=o)
+    an = darsia.ConcentrationAnalysis([B] + Es if Es else B, red, bal, stage_fns["restoration"], mod, **{"diff option": cfg["diff"], "restoration -> model": cfg["order"]})
+    out = an(P)
+
+    def mono(a):
+        c = cfg["color"]
+        if c in ("red", "green", "blue"):
+            return a[..., ("red", "green", "blue").index(c)]
+        if c == "red+green":
+            return a[..., 0] + a[..., 1]
+        res = np.empty(a.shape[:2], dtype=a.dtype)
+        for i in np.ndindex(*a.shape[:2]):
+            res[i] = 1 - S.min_(S.min_(1 - a[i][0], 1 - a[i][1]), 1 - a[i][2])
+        return res
+
+    x = mono(_diff(cfg["diff"], probe, base))
+    if extra:
+        Fm = np.zeros(x.shape, dtype=x.dtype)  # the filter starts from zero
+        for e in extra:
+            Fm = S.elementwise(S.max_, 2)(Fm, mono(_diff(cfg["diff"], e, base)))
+        y = np.empty(x.shape, dtype=x.dtype)
+        for i in np.ndindex(*x.shape):
+            y[i] = S.max_(x[i] - Fm[i], 0)
+        x = y
+    if cfg["balancing"] == "scaling":
+        x = sb * x
+    elif cfg["balancing"] == "linear":
+        x = sb * x + ob
+    rest = fns["rest"]
+
+    def rs(a):
+        flat = list(a.ravel())
+        res = np.empty(a.shape, dtype=a.dtype)
+        for k, i in enumerate(np.ndindex(*a.shape)):
+            res[i] = rest[k](*flat)
+        return res
+
+    x = (s * rs(x) + o) if cfg["order"] else rs(s * x + o)
+    ok = tuple(out.img.shape) == tuple(x.shape)
+    S.claim("concrete_stage_classes_compose_as_documented", S.and_(ok, S.eq(out.img, x) if ok else False))
+    S.claim("concrete_reduced_result_is_scalar_image", isinstance(out, darsia.ScalarImage) and bool(out.scalar))
+    S.claim("concrete_probe_unmodified", S.eq(P.img, probe))
     S.observe("out", out.img)
